@@ -956,3 +956,82 @@ pub fn big_family(cx: &mut Ctx, thorough: bool) {
         }
     }
 }
+
+// ------------------------------------------------------------------------------------------------------------
+// sparse structures given by their pivot list: sizes up to the largest a list of u32 pivots describes exactly (2^32 bits;
+// query positions then range over 0 ..= 2^32, one value more than a pivot can hold).  Judged against the list itself.
+pub fn few_described_case(size: u64, pos: &[u32]) -> Value { json!({"cell": "few_described", "size": size, "pos": pos}) }
+
+pub fn few_described_replay(cx: &mut Ctx, c: &Value) {
+    let pos: Vec<u32> = c["pos"].as_array().map(|a| a.iter().map(|x| x.as_u64().unwrap_or(0) as u32).collect()).unwrap_or_default();
+    few_described(cx, c["size"].as_u64().unwrap_or(0), &pos);
+}
+
+pub fn few_described(cx: &mut Ctx, size: u64, pos: &[u32]) {
+    let cj = few_described_case(size, pos);
+    let size = size as usize;
+    let mut pos: Vec<u32> = pos.iter().copied().filter(|&x| (x as usize) < size).collect();
+    pos.sort(); pos.dedup();
+    cx.sum.dist("pivot_list_structures");
+    let key = format!("few_described:{}:{}", size, pos.len());
+    // queries: the ends, around every pivot, around the powers of two a narrower index type would wrap at
+    let mut ps: Vec<usize> = vec![0, 1, 2, size / 2, size.saturating_sub(2), size.saturating_sub(1), size];
+    for b in [1usize << 16, 1 << 31, 1 << 32] { for d in [0usize, 1, 2] { ps.push(b - d); ps.push(b + d); } }
+    for &x in pos.iter().take(40).chain(pos.iter().rev().take(40)) { let x = x as usize; ps.push(x); ps.push(x + 1); ps.push(x.saturating_sub(1)); }
+    ps.retain(|&p| p <= size); ps.sort(); ps.dedup();
+    let m = pos.len();
+    let lb = |p: usize| pos.partition_point(|&x| (x as usize) < p);
+    let member = |i: usize| pos.binary_search(&(i as u32)).is_ok();
+    // the k-th index that is not a pivot
+    let nth_other = |k: usize| -> Option<usize> { let mut c = k; for &x in pos.iter() { if (x as usize) <= c { c += 1; } else { break; } } if c < size { Some(c) } else { None } };
+    let ks: Vec<usize> = { let mut v = vec![0usize, 1, 2, m / 2, m.saturating_sub(1), m, m + 1]; v.sort(); v.dedup(); v };
+    let others = size - m;
+    let kso: Vec<usize> = { let mut v = vec![0usize, 1, 2, 5, others / 2, others.saturating_sub(2), others.saturating_sub(1), others, others + 1];
+        for &x in pos.iter().take(20).chain(pos.iter().rev().take(20)) { let r = (x as usize) - lb(x as usize); v.push(r); v.push(r.saturating_sub(1)); v.push(r + 1); }
+        v.sort(); v.dedup(); v };
+    run_cell(cx, "few/described", &key, true, &cj, || {
+        let mut bad: Vec<String> = vec![];
+        macro_rules! chk { ($cond:expr, $($arg:tt)*) => { if !$cond && bad.len() < 6 { bad.push(format!($($arg)*)); } } }
+        for pivots_are_ones in [true, false] {
+            let name = if pivots_are_ones { "FewOne" } else { "FewZero" };
+            let rs: Box<dyn RankSelectOps> = if pivots_are_ones { Box::new(RankSelectFewOne::new(pos.clone(), size).map_err(es)?) } else { Box::new(RankSelectFewZero::new(pos.clone(), size).map_err(es)?) };
+            let (n1, n0) = if pivots_are_ones { (m, others) } else { (others, m) };
+            chk!(rs.len() == size, "{} len {} want {}", name, rs.len(), size);
+            chk!(rs.count_ones() == n1 && rs.count_zeros() == n0, "{} count_ones/zeros {}/{} want {}/{}", name, rs.count_ones(), rs.count_zeros(), n1, n0);
+            for &p in &ps {
+                let piv = lb(p);
+                let (w1, w0) = if pivots_are_ones { (piv, p - piv) } else { (p - piv, piv) };
+                let (r1, r0) = (rs.rank1(p), rs.rank0(p));
+                chk!(r1 == w1, "{} rank1({}) = {} want {} (size {})", name, p, r1, w1, size);
+                chk!(r0 == w0, "{} rank0({}) = {} want {} (size {})", name, p, r0, w0, size);
+                if p < size { chk!(rs.get(p) == Some(member(p) == pivots_are_ones), "{} get({}) = {:?}", name, p, rs.get(p)); }
+            }
+            chk!(rs.get(size).is_none(), "{} get(len) not refused", name);
+            for &k in &ks {
+                let g = if pivots_are_ones { rs.select1(k).ok() } else { rs.select0(k).ok() };
+                let w = pos.get(k).map(|&x| x as usize);
+                chk!(g == w, "{} select of pivot {} = {:?} want {:?}", name, k, g, w);
+            }
+            for &k in &kso {
+                let g = if pivots_are_ones { rs.select0(k).ok() } else { rs.select1(k).ok() };
+                let w = nth_other(k);
+                chk!(g == w, "{} select of non-pivot {} = {:?} want {:?} (size {})", name, k, g, w, size);
+            }
+        }
+        Ok(bad)
+    });
+}
+
+pub fn few_described_family(cx: &mut Ctx, thorough: bool) {
+    let top = 1u64 << 32;
+    let mut r = Rng::new(0xFE77);
+    for &size in &[top, top - 1, top - 2, 1u64 << 31, (1u64 << 31) + 1, (1u64 << 24) + 1, 65536, 65537, 9, 1, 0] {
+        let last = size.saturating_sub(1) as u32;
+        let mut lists: Vec<Vec<u32>> = vec![vec![], vec![0], vec![last], vec![0, 7, last], (0..6u32).map(|d| last.saturating_sub(d * 3)).collect(), vec![1, 65535, 65536, 1 << 31, last / 2, last.saturating_sub(1)]];
+        for _ in 0..(if thorough { 12 } else { 3 }) {
+            let k = 1 + r.below(60) as usize;
+            lists.push((0..k).map(|_| if size == 0 { 0 } else { (r.next() % size) as u32 }).collect());
+        }
+        for l in lists { few_described(cx, size, &l); }
+    }
+}
